@@ -556,6 +556,9 @@ def gen_feeds(ctx):
                  'P': 5904622.087575287, 'K0': None, 'tag': 'supercritical'})
     jobs.append({'composition': ['methane', 'argon'], 'm': [0.354271167501782, 0.00046553454931926475], 'T': 361.65053273854073,
                  'P': 17509328.78543206, 'K0': None, 'tag': 'supercritical'})
+    # near-ideal gas mixture returned as two identical phases (found by the random search; known finding ideal-gas-partly-in-liquid-row)
+    jobs.append({'composition': ['oxygen', 'carbon_monoxide'], 'm': [5.776686808454653e-05, 4.739849259855361e-05],
+                 'T': 351.09204744282795, 'P': 641198.893777722, 'K0': None, 'tag': 'supercritical'})
     # hydrogen-rich feeds at high pressure (the fixed one was found by the random search: reported as one phase, unstable)
     jobs.append({'composition': ['neohexane', 'n-decane', 'n-hexane', 'hydrogen', 'hydrogen_sulfide'],
                  'm': [0.14833924978240257, 0.014147196942160328, 0.5268357381769898, 0.9705940146954938, 1.3586451787102498],
@@ -807,7 +810,7 @@ def single_phase_clauses(ctx, res, case, row):
             sig = res.get('wilson_stability') or {}
             zh = float(z[c['composition'].index('hydrogen')]) if 'hydrogen' in c['composition'] else 0.
             signature = sig.get('phases') == 2 and sig.get('dG') is not None and sig['dG'] < 0.
-            specific = signature and row == 0 and zh >= 0.5 and c['P'] >= 3e7
+            specific = signature and zh >= 0.5 and c['P'] >= 3e7
             ctx.count('flash:negative-tpd:' + ('signature-wilson-start-finds-split' if signature else 'no-signature'))
             ctx.violation('unstable-single-phase-hydrogen-rich-high-pressure' if specific else 'negative-tangent-plane-distance',
                           'a trial composition has a negative tangent-plane distance from a feed reported as one phase',
@@ -882,7 +885,7 @@ def run_flash(ctx, lean_ok, dbm):
         else:
             nign += 1
             ctx.count('flash:warm-start-probe(supplied K replaced by the Wilson estimate; NOT coverage)')
-    ctx.notes.append('QUANTIFIER CLAUSE NOT REACHABLE: "with and without a warm-start K vector" — the supplied K reached the first '
+    ctx.notes.append(('QUANTIFIER CLAUSE NOT REACHABLE' if nused == 0 else 'WARM START NOW REACHABLE') + ': "with and without a warm-start K vector" — the supplied K reached the first '
                      'successive_substitution call in %d of %d probes (dbm.py l.2577 `isinstance(np.sum(K_0), type(np.nan))` is True for every '
                      'float array; repair: `np.isnan(np.sum(K_0))`).  Every evaluated call is therefore a cold start; no statement clause is made '
                      'false by this, the warm-start half of the quantifier is simply not exercised%s'
